@@ -349,25 +349,31 @@ class _KexDHGex(_KexDHBase):
         self._gex_data = packet.get_remaining_payload()
 
         if pkttype == MSG_KEX_DH_GEX_REQUEST_OLD:
+            min_size = KEX_DH_GEX_MIN_SIZE
             preferred_size = packet.get_uint32()
             max_size = KEX_DH_GEX_MAX_SIZE
         else:
-            _ = packet.get_uint32()
+            min_size = packet.get_uint32()
             preferred_size = packet.get_uint32()
             max_size = packet.get_uint32()
 
         packet.check_end()
 
-        g, p = _group1_g, _group1_p
+        g, p = 0, 0
 
         for gex_size, gex_g, gex_p in _dh_gex_groups:
-            if gex_size > max_size:
+            if gex_size < min_size:
+                continue
+            elif gex_size > max_size:
                 break
             else:
                 g, p = gex_g, gex_p
 
                 if gex_size >= preferred_size:
                     break
+
+        if not p:
+            raise KeyExchangeFailed('No DH group of an acceptable size')
 
         self._init_group(g, p)
         self._gex_data += MPInt(p) + MPInt(g)
@@ -386,6 +392,10 @@ class _KexDHGex(_KexDHBase):
         p = packet.get_mpint()
         g = packet.get_mpint()
         packet.check_end()
+
+        if not (KEX_DH_GEX_MIN_SIZE <= p.bit_length() <=
+                (self._max_size or KEX_DH_GEX_MAX_SIZE)):
+            raise ProtocolError('Kex DH group size out of range')
 
         self._init_group(g, p)
         self._gex_data += MPInt(p) + MPInt(g)
